@@ -458,7 +458,7 @@ TRUSTED_BASE = [
     "extraction: ExtrOcamlBasic only (bool, option, list, prod, unit, sumbool mapped to OCaml's); Z/N/positive/nat stay Coq inductives; ocamlfind ocamlopt; hand-written ocaml/driver.ml case parser/printer",
     "correspondence harness /verif/harness (Rust, in-memory FileSystem) and the Python drivers/generators/oracles in /verif/lib",
     "the hand-written Gallina model of the Rust code (modelled, not verified: all Rust code, rustc, std, clap, path-absolutize, microserde, fxhash, the OS)",
-    "translator lib/gen_tables.py (regular expressions over the name tables and Expr::evaluate arms)",
+    "translators lib/gen_tables.py (regular expressions over the match arms of the nine name tables) and lib/gen_expr.py (a small parser for the Rust expressions in the 26 pure arms of Expr::evaluate_inner, with their i32/u32/u16/bool meaning over Z)",
 ]
 ASSUMPTIONS = [
     "the model is tied to the code by differential testing on generated cases, not by a proof about Rust semantics",
